@@ -210,6 +210,10 @@ def emit_expr(o, names, e):
         l = emit_expr(o, names, e["l"])
         r = emit_expr(o, names, e["r"])
         return PYOPS[e["op"]](l, r)
+    if k in ("inrl", "notinrl"):
+        lhs = emit_expr(o, names, e["e"])
+        rl = getattr(o, "rl%d" % e["rl"])
+        return lhs.inside(rl) if k == "inrl" else lhs.not_inside(rl)
     if k == "not":
         return ~emit_expr(o, names, e["e"])
     if k == "psel":
@@ -295,6 +299,11 @@ def mk_field(f):
 _cls_n = [0]
 
 
+def rl_item(x):
+    """a literal item of a range list: a value or a (low, high) pair"""
+    return x["single"]["v"] if "single" in x else (x["lo"]["v"], x["hi"]["v"])
+
+
 def build_class(scn):
     """a real @vsc.randobj class whose constraint bodies call the real overloaded operators"""
     fields = scn["fields"]
@@ -303,6 +312,9 @@ def build_class(scn):
     def __init__(self):
         for f in fields:
             setattr(self, f["name"], mk_field(f))
+        # range lists held by the object: constraints refer to them, the user edits them between calls
+        for k, rl in enumerate(scn.get("rangelists", [])):
+            setattr(self, "rl%d" % k, vsc.rangelist(*[rl_item(x) for x in rl]))
     d = {"__init__": __init__}
     for bi, b in enumerate(scn.get("blocks", [])):
         def mk(stmts):
